@@ -1201,10 +1201,13 @@ def Item.refresh (h : Heap) (v : Item) : Item :=
     | none => v
   | none => v
 
-/-- the contexts of yielded values are (possibly mutated) objects: remember their content -/
+/-- the contexts of yielded values are (possibly mutated) objects: remember the content of those that came
+with the flow (`Tok.src`); an object made during a step is not seen by a later step -/
 def Heap.record (h : Heap) (outs : List Item) : Heap :=
   outs.foldl (fun h y => match y.ctx with
-    | some c => h.set c.tok c.d
+    | some c => match c.tok with
+      | .src _ => h.set c.tok c.d
+      | .made _ _ => h
     | none => h) h
 
 /-- the loop body `f` under reference semantics -/
